@@ -13,6 +13,11 @@ mod ext_spec;
 mod model;
 mod ops;
 mod ops_cost;
+// the crate's own capacity hint, compiled from its source file (it is private to the crate): sizes that no
+// value can have in a test process (multiples of 2^32 bytes) are exercised on the function alone
+#[allow(dead_code)]
+#[path = "/repo/borsh/src/de/hint.rs"]
+mod hint_src;
 mod ops_io;
 mod ops_schema_ty;
 mod ops_canon;
